@@ -136,6 +136,9 @@ def pd_spec(draw, relative, max_npts=150, allow_cut=True):
     nsig = draw(st.sampled_from([1.0, 2.0, 3.0, 3.0, 5.5, 8.0]))
     if relative:
         width = draw(st.sampled_from([0.02, 0.1, 0.1, 0.2, 0.35, 0.6] + ([1.5, 1.0] if allow_cut else [])))
+        if allow_cut and draw(st.integers(0, 9)) == 0:
+            # width * nsigma == 1 exactly: the lowest point of the grid is 0, exactly on the usual lower limit
+            width, nsig = draw(st.sampled_from([(0.5, 2.0), (1.0, 1.0), (0.25, 4.0), (0.125, 8.0)]))
     else:
         width = draw(st.sampled_from([1.0, 5.0, 10.0, 20.0, 40.0]))
     return {"type": kind, "n": npts, "width": width, "nsigma": nsig}
